@@ -77,8 +77,10 @@ func TestC09Mixed(t *testing.T) {
 		var res vrun.Result
 		ok, dump := vrun.Watchdog(180*time.Second, func() { res = runMixed(c) })
 		if !ok {
-			res = vrun.Inconcl("wall-clock watchdog fired")
-			res.Witness = map[string]any{"dump_head": dump[:min(len(dump), 3000)]}
+			res = vrun.WatchdogVerdict("the case never finished")
+			if res.Verdict == vrun.Inconclusive {
+				res.Witness = map[string]any{"dump_head": dump[:min(len(dump), 3000)]}
+			}
 		}
 		return res
 	})
